@@ -353,6 +353,10 @@ def harnesses(tier):
     for d in (1, 2):
         hs.append(Harness(f"spreads.{d}", h_spread_maps, {"d": d}, max_paths=4000, batch=20))
     hs.append(Harness("cds", h_cds_payoff, max_paths=2000))
+    # which states count as "in default" for the products that consume the chain: the default-time underlyings, one path after the other
+    from .c17_payoffs import h_default_history
+
+    hs.append(Harness("default.history", h_default_history, {"n": 2, "prefix": "C19"}, max_paths=4000, batch=20))
     hs.append(Harness("twin", h_twin, twin="must_fail"))
     return hs
 
